@@ -69,13 +69,23 @@
 #include "posutil.hpp"
 #include "parameters.hpp"
 #include "computerPlayer.hpp"
+#include "search.hpp"
+#include "history.hpp"
+#include "killerTable.hpp"
+#include "parallel.hpp"
+#include "treeLogger.hpp"
+#include "transpositionTable.hpp"
 #undef private
 #undef protected
 
 static bool derivedMode = true;
-static std::ostringstream out;
+static std::ostringstream mainOut;      // op stream + state lines of the scripted history
+static std::ostringstream searchOut;    // ... of real searches (G), emitted as histories of their own
+static std::ostringstream* outP = &mainOut;
+#define out (*outP)
 
-static void flushOut() { std::cout << out.str(); out.str(""); out.clear(); }
+static void flushOut() { std::cout << mainOut.str(); mainOut.str(""); mainOut.clear(); }
+static void flushSearchOut() { std::cout << searchOut.str(); searchOut.str(""); searchOut.clear(); }
 
 // ---------------------------------------------------------------------------------------------
 static uint64_t hashLanes(const S16* v, int n) {
@@ -139,6 +149,12 @@ struct Hist {
 static Hist* H = nullptr;
 
 // ---- H4 hook --------------------------------------------------------------------------------
+static void legalMoves(const Position& pos, MoveList& ml) {
+    Position tmp(pos);                        // not connected: no notifications
+    MoveGen::pseudoLegalMoves(tmp, ml);
+    MoveGen::removeIllegal(tmp, ml);
+}
+
 static int hookDepth = 0;
 static const NNEvaluator* tracked = nullptr;
 static bool lastWasEval = false;
@@ -150,6 +166,33 @@ static void dumpLine(bool clipped) {
 }
 
 #ifdef C07_HAVE_H4
+static bool searchMode = false;
+static long searchEvals = 0, searchDiffs = 0;
+static std::shared_ptr<NNEvaluator> searchFresh;
+static std::unique_ptr<Position> searchFreshPos;
+
+/** every evaluation the real search performs: accumulators against a from-scratch computation */
+static void compareWithFresh(const NNEvaluator* nn) {
+    const Position* p = nn->posP;
+    if (!p) return;
+    if (!searchFresh) {
+        searchFreshPos.reset(new Position(*p));
+        searchFresh = NNEvaluator::create(nn->netData);
+        searchFresh->connectPosition(searchFreshPos.get());
+    }
+    *searchFreshPos = *p;                       // operator= -> forceFullEval of the fresh evaluator
+    searchFresh->computeL1WB();
+    searchEvals++;
+    bool same = true;
+    for (int c = 0; c < 2; c++)
+        same = same && memcmp(&nn->stack.flState[nn->stack.stackTop][c].l1Out,
+                              &searchFresh->stack.flState[searchFresh->stack.stackTop][c].l1Out, sizeof(S16) * NetData::n1) == 0;
+    if (!same) {
+        searchDiffs++;
+        out << "T E 0 0 FRESHDIFF " << TextIO::toFEN(*p) << '\n';
+    }
+}
+
 static void hookFn(const NNEvaluator* nn, int op, int phase, int a, int b, int c) {
     if (nn != tracked || derivedMode) return;
     if (phase == 0) {
@@ -169,7 +212,46 @@ static void hookFn(const NNEvaluator* nn, int op, int phase, int a, int b, int c
         out << "OP D " << ((p && p->isWhiteMove()) ? 1 : 0) << " 0\n";
         realState(*nn, false, out);
         out << '\n';
+        if (searchMode && op == 4) compareWithFresh(nn);
     }
+}
+
+struct SearchBox {
+    TranspositionTable tt;
+    Notifier notifier;
+    ThreadCommunicator comm;
+    KillerTable kt;
+    History ht;
+    std::unique_ptr<Evaluate::EvalHashTables> et;
+    TreeLogger treeLog;
+    SearchBox() : tt(256 * 1024), comm(nullptr, tt, notifier, false), et(Evaluate::getEvalHashTables()) {}
+};
+
+/** a real search (iterativeDeepening, one thread) from position p; its evaluator's op stream is
+ *  recorded as a history of its own */
+static void runSearch(const Position& p, int depth, int maxNodes, int contempt) {
+    static std::unique_ptr<SearchBox> sb;
+    sb.reset(new SearchBox);
+    MoveList moves; legalMoves(p, moves);
+    const NNEvaluator* prevTracked = tracked;
+    int prevDepth = hookDepth;
+    outP = &searchOut;
+    out << "OP N"; boardStr(&p, out); out << '\n';
+    out << "T G " << depth << ' ' << maxNodes << ' ' << TextIO::toFEN(p) << '\n';
+    tracked = sb->et->nnEval.get(); hookDepth = 0; searchMode = true; searchEvals = searchDiffs = 0;
+    S64 nodes = 0;
+    {
+        std::vector<U64> list(SearchConst::MAX_SEARCH_DEPTH * 2 + 8);
+        Search::SearchTables st(sb->comm.getCTT(), sb->kt, sb->ht, *sb->et);
+        Search sc(p, list, 0, st, sb->comm, sb->treeLog);
+        sc.setWhiteContempt(contempt);
+        sc.timeLimit(-1, -1);
+        sc.iterativeDeepening(moves, depth, maxNodes);
+        nodes = sc.getTotalNodes();
+    }                                            // ~Search -> ~Position -> disconnect (forceFullEval)
+    out << "T S " << nodes << ' ' << searchEvals << ' ' << searchDiffs << '\n';
+    searchMode = false; tracked = prevTracked; hookDepth = prevDepth;
+    outP = &mainOut;
 }
 #endif
 
@@ -224,18 +306,14 @@ static int freshEvalPos(const Position& p, int contempt) {
     return v;
 }
 
-static void legalMoves(const Position& pos, MoveList& ml) {
-    Position tmp(pos);                        // not connected: no notifications
-    MoveGen::pseudoLegalMoves(tmp, ml);
-    MoveGen::removeIllegal(tmp, ml);
-}
-
 static void newHistory(int contempt, const std::string& fen) {
     if (H) {
         tracked = nullptr;
         H->nn()->connectPosition(nullptr);
         delete H;
     }
+    flushOut();
+    flushSearchOut();
     H = new Hist;
     H->contempt = contempt;
     H->et = Evaluate::getEvalHashTables();
@@ -397,6 +475,17 @@ static void runHist() {
             MoveList ml; MoveGen::pseudoLegalMoves(pos, ml);
             MoveGen::removeIllegal(pos, ml);         // makes/unmakes moves on the connected position
             out << "T L " << ml.size << '\n';
+        } else if (cmd == "G") {
+            int depth = 3, maxNodes = 2000; is >> depth >> maxNodes;
+#ifdef C07_HAVE_H4
+            Position kt(pos);
+            if (!derivedMode && !MoveGen::canTakeKing(kt)) {
+                runSearch(pos, depth, maxNodes, H->contempt);
+                out << "T G\n";
+                continue;
+            }
+#endif
+            out << "T G skip\n";
         } else if (cmd == "Q") {
             // evalPos through the long-lived Evaluate (cache + incremental state) versus a fresh one,
             // the colour-swapped and (without castling rights) the mirrored position
@@ -419,9 +508,10 @@ static void runHist() {
             out << "T Q " << v << ' ' << vf << ' ' << vs << ' ' << mir << ' ' << (hit ? "hit" : "miss")
                 << ' ' << (H->ev->mhd && H->ev->mhd->endGame ? "eg" : "mg") << ' ' << TextIO::toFEN(pos) << '\n';
         }
-        if (out.tellp() > (1 << 16)) flushOut();
+        if (mainOut.tellp() > (1 << 16)) flushOut();
     }
     flushOut();
+    flushSearchOut();
 }
 
 // ---- evaluation cache ------------------------------------------------------------------------
